@@ -56,7 +56,36 @@ def recipes(iface, tmpfile):
             return mod.PlainTextResponse(await request.body)
         return later()
 
+    def upload_stream(request):
+        """reads the form, answers with a stream that reads the uploaded file piece by piece while the body goes out"""
+        if is_w:
+            f = request.form["u"]
+
+            def g():
+                f.seek(0)
+                while True:
+                    piece = f.read(4)
+                    if not piece:
+                        return
+                    yield piece
+            return mod.StreamResponse(g(), content_type="application/octet-stream")
+
+        async def later():
+            form = await request.form
+            f = form["u"]
+
+            async def ag():
+                await f.aseek(0)
+                while True:
+                    piece = await f.aread(4)
+                    if not piece:
+                        return
+                    yield piece
+            return mod.StreamResponse(ag(), content_type="application/octet-stream")
+        return later()
+
     out = {
+        "upload_stream": upload_stream,
         "text": lambda req: mod.PlainTextResponse("hello"),
         "html": lambda req: mod.HTMLResponse("<p>é</p>", 201, headers={"x-custom": "v"}),
         "json": lambda req: mod.JSONResponse({"a": [1, "é"]}),
@@ -251,6 +280,18 @@ def wrappers(iface):
             resp.delete_cookie("old")
             resp.headers["x-after"] = "1"
             return resp
+
+        @mod.middleware
+        def L(request, next_call):  # an access log: looks at the finished header list, changes nothing
+            resp = next_call(request)
+            L.seen = len(resp.list_headers(as_bytes=False))
+            return resp
+
+        @mod.middleware
+        def U(request, next_call):  # edits a header through the bulk interface, spelled the usual way
+            resp = next_call(request)
+            resp.headers.update({"X-Custom": "set-by-U"})
+            return resp
     else:
         @mod.middleware
         async def M(request, next_call):
@@ -278,7 +319,19 @@ def wrappers(iface):
             resp.delete_cookie("old")
             resp.headers["x-after"] = "1"
             return resp
-    return {"M": M, "E": E, "D": D, "C": C, "X": X}
+
+        @mod.middleware
+        async def L(request, next_call):
+            resp = await next_call(request)
+            L.seen = len(resp.list_headers(as_bytes=True))
+            return resp
+
+        @mod.middleware
+        async def U(request, next_call):
+            resp = await next_call(request)
+            resp.headers.update({"X-Custom": "set-by-U"})
+            return resp
+    return {"M": M, "E": E, "D": D, "C": C, "X": X, "L": L, "U": U}
 
 
 def build(iface, name, stack, tmpfile):
@@ -317,7 +370,8 @@ def build(iface, name, stack, tmpfile):
 
 
 def requests_menu():
-    return [("GET", [], []), ("HEAD", [], []), ("POST", [("Content-Type", "text/plain"), ("Content-Length", "4")], [b"bo", b"dy"]), ("GET", [("Range", "bytes=1-2")], []), ("GET", [("X-Ext", "1")], []), ("GET", [("X-Empty", ""), ("X-Zero", "0")], [])]
+    return [("GET", [], []), ("HEAD", [], []), ("POST", [("Content-Type", "text/plain"), ("Content-Length", "4")], [b"bo", b"dy"]), ("GET", [("Range", "bytes=1-2")], []), ("GET", [("X-Ext", "1")], []), ("GET", [("X-Empty", ""), ("X-Zero", "0")], []),
+            ("POST", [("Content-Type", "multipart/form-data; boundary=bd")], [b'--bd\r\nContent-Disposition: form-data; name="t"\r\n\r\ntext\r\n--bd\r\nContent-Disposition: form-data; name="u"; filename="up.bin"\r\n\r\n0123456789', b'abcdef\r\n--bd--\r\n'])]
 
 
 def run(iface, app, method, headers, chunks, executor_order="inline"):
@@ -452,7 +506,7 @@ def run_shard(desc, tier):
         for method, headers, chunks in requests_menu():
             bare_app, bare_count = build(iface, name, (), tmpfile)
             bare = run(iface, bare_app, method, headers, chunks)
-            for stack in stacks(names, DEPTH[tier]):
+            for stack in stacks(names, DEPTH[tier]) + [("L",), ("U",), ("L", "M"), ("M", "L"), ("U", "E"), ("C", "L"), ("L", "L")] + ([("D", "L")] if is_view else []):
                 if not stack:
                     continue
                 app, count = build(iface, name, stack, tmpfile)
@@ -486,8 +540,11 @@ def run_shard(desc, tier):
                 if calls != 1:
                     r.violation("inner-app-run-count", w, f"{where}: inner application ran {calls} times")
                 edited = "E" in stack
-                bh, bc = norm_headers(bare, drop=("x-edited",))
-                gh, gc = norm_headers(res, drop=("x-edited",))
+                bh, bc = norm_headers(bare, drop=("x-edited",) + (("x-custom",) if "U" in stack else ()))
+                gh, gc = norm_headers(res, drop=("x-edited",) + (("x-custom",) if "U" in stack else ()))
+                if "U" in stack and [v for k, v in res.headers if k.lower() == "x-custom"] != ["set-by-U"]:
+                    r.violation("bulk-edit-not-applied", w, f"{where}: the middleware sets X-Custom through headers.update(); the client gets x-custom = {[v for k, v in res.headers if k.lower() == 'x-custom']}")
+                    continue
                 if iface == "asgi" and len(stack) <= 2:
                     # the same again with a thread pool that runs what it is handed in one turn of the loop last-in-first-out
                     app2, _ = build(iface, name, stack, tmpfile)
